@@ -102,28 +102,51 @@ Proof.
   exists dr. split; [exact Hd|]. congruence.
 Qed.
 
-Lemma step_ok : forall fl st a a' s x,
-  Good s -> R a s -> abs_step (p_data_fail_drops P) m a x = Some a' ->
-  Good (exec_step iface_of P k shard m ci (old_iface r0) fl st s x) /\
-  R a' (exec_step iface_of P k shard m ci (old_iface r0) fl st s x).
+Lemma SInv_touch : forall r mr, SInv r -> rm r = Some mr -> SInv (set_rm (Some mr) r).
 Proof.
-  intros fl st [[aM aX] aD] a' s x HG HR Ha.
+  intros r mr H Em mr1 xr1 Hm Hx. simpl in Hm, Hx. inversion Hm; subst mr1.
+  destruct (H mr xr1 Em Hx) as (dr & H1 & H2). exists dr. simpl. split; assumption.
+Qed.
+
+Ltac strengthen :=
+  match goal with
+  | |- ?G /\ (_ \/ ?Rr) => cut (G /\ Rr); [intros [? ?]; split; [assumption | right; assumption] | ]
+  end.
+
+Lemma step_ok : forall fl st a a' s x,
+  Good s -> R a s -> dropped s = false -> abs_step (pflags P) m a x = Some a' ->
+  Good (exec_step iface_of P k shard m ci (old_iface r0) fl st s x) /\
+  (dropped (exec_step iface_of P k shard m ci (old_iface r0) fl st s x) = true \/
+   R a' (exec_step iface_of P k shard m ci (old_iface r0) fl st s x)).
+Proof.
+  intros fl st [[aM aX] aD] a' s x HG HR Hnd Ha.
   destruct HR as (HM & HX & HD).
-  unfold abs_step in Ha.
-  destruct x as [m'|m'|m'|m'|m'|m'|]; simpl in Ha; simpl exec_step.
+  unfold abs_step, pflags in Ha.
+  destruct x as [m'|m'|m'|m'|m'|m'| |m']; simpl in Ha; simpl exec_step.
   - (* SRmMeta *)
-    destruct (Nat.eqb m' m).
-    + inversion Ha; subst a'. split.
-      * apply Good_wr; [exact HG | apply SInv_rm_none].
-      * simpl. repeat split; auto.
-    + inversion Ha; subst a'. split; [exact HG | simpl; auto].
+    destruct (Nat.eqb m' m); [|inversion Ha; subst a'; split; [exact HG | right; simpl; auto]].
+    inversion Ha; subst a'. clear Ha. rewrite Hnd.
+    destruct fl.
+    + destruct (p_rm_fail_drops P).
+      * split; [apply Good_drop; exact HG | left; reflexivity].
+      * split; [exact HG | right; simpl; auto].
+    + split; [apply Good_wr; [exact HG | apply SInv_rm_none]|]. right. r3.
+      * destruct (p_rm_fail_drops P); [reflexivity|]. destruct aM; simpl; auto. intros ? Hc; discriminate Hc.
+      * exact HX.
+      * exact HD.
   - (* SRmEx *)
-    destruct (Nat.eqb m' m).
-    + inversion Ha; subst a'. split.
-      * apply Good_wr; [exact HG | apply SInv_rx_none].
-      * simpl. repeat split; auto.
-    + inversion Ha; subst a'. split; [exact HG | simpl; auto].
+    destruct (Nat.eqb m' m); [|inversion Ha; subst a'; split; [exact HG | right; simpl; auto]].
+    inversion Ha; subst a'. clear Ha. rewrite Hnd.
+    destruct fl.
+    + destruct (p_rm_fail_drops P).
+      * split; [apply Good_drop; exact HG | left; reflexivity].
+      * split; [exact HG | right; simpl; auto].
+    + split; [apply Good_wr; [exact HG | apply SInv_rx_none]|]. right. r3.
+      * destruct aM; simpl in *; auto.
+      * destruct (p_rm_fail_drops P); [reflexivity|]. destruct aX; simpl; auto. intros ? Hc; discriminate Hc.
+      * exact HD.
   - (* SData *)
+    strengthen.
     destruct (Nat.eqb m' m).
     + destruct aM; simpl in Ha; try discriminate.
       destruct aD; simpl in Ha; try discriminate.
@@ -145,6 +168,7 @@ Proof.
         destruct (p_data_fail_drops P); simpl; auto. right. eexists. split; reflexivity.
     + inversion Ha; subst a'. split; [exact HG | simpl; auto].
   - (* SMeta *)
+    strengthen.
     destruct (Nat.eqb m' m).
     + destruct aX; simpl in Ha; try discriminate.
       assert (HaM : aM <> PU) by (intro; subst aM; simpl in Ha; discriminate).
@@ -167,6 +191,7 @@ Proof.
         -- destruct HD as [HD|HD]; [discriminate HD | right; simpl; rewrite Ed; exact HD].
     + inversion Ha; subst a'. split; [exact HG | simpl; auto].
   - (* SEx *)
+    strengthen.
     destruct (Nat.eqb m' m).
     + assert (HaM : aM <> PU) by (intro; subst aM; simpl in Ha; discriminate).
       assert (HaX : aX <> PU) by (intro; subst aX; destruct aM; simpl in Ha; discriminate).
@@ -186,43 +211,83 @@ Proof.
         -- destruct aD; simpl in *; auto.
     + inversion Ha; subst a'. split; [exact HG | simpl; auto].
   - (* SCommitM *)
+    strengthen.
     inversion Ha; subst a'. destruct (Nat.eqb (shard m') (shard m)).
     + split; [apply Good_commit; exact HG | simpl; auto].
     + split; [exact HG | simpl; auto].
   - (* SCommitAll *)
+    strengthen.
     inversion Ha; subst a'. split; [apply Good_commit; exact HG | simpl; auto].
+  - (* STouchMeta *)
+    strengthen.
+    inversion Ha; subst a'. clear Ha.
+    destruct (Nat.eqb m' m); [|split; [exact HG | simpl; auto]].
+    destruct (rm (v s)) as [mr|] eqn:Em; [|split; [exact HG | simpl; auto]].
+    destruct (rx (v s)) as [xr|] eqn:Ex; [|split; [exact HG | simpl; auto]].
+    destruct fl; [split; [exact HG | simpl; auto]|].
+    destruct HG as (Hv & Hd & Hk).
+    split.
+    + apply Good_wr; [unfold Good; auto | apply SInv_touch; assumption].
+    + r3.
+      * destruct aM; simpl in *; auto; [congruence|].
+        intros mr1 Hm. inversion Hm; subst mr1. apply HM. exact Em.
+      * destruct aX; simpl in *; auto.
+      * destruct aD; simpl in *; auto.
+Qed.
+
+(* once the module is dropped nothing is written for it any more *)
+Lemma step_dropped : forall fl st s x,
+  Good s -> dropped s = true ->
+  Good (exec_step iface_of P k shard m ci (old_iface r0) fl st s x) /\
+  dropped (exec_step iface_of P k shard m ci (old_iface r0) fl st s x) = true.
+Proof.
+  intros fl st s x HG Hd.
+  destruct x as [m'|m'|m'|m'|m'|m'| |m']; simpl exec_step;
+    try (destruct (Nat.eqb m' m); rewrite ?Hd; split; first [assumption | reflexivity]).
+  - destruct (Nat.eqb (shard m') (shard m)); [split; [apply Good_commit; exact HG | exact Hd] | split; assumption].
+  - split; [apply Good_commit; exact HG | exact Hd].
+  - destruct (Nat.eqb m' m); [|split; assumption].
+    destruct (rm (v s)) as [mr|] eqn:Em; [|split; assumption].
+    destruct (rx (v s)) as [xr|] eqn:Ex; [|split; assumption].
+    destruct fl; [split; assumption|].
+    split; [|exact Hd]. destruct HG as (Hv & Hdd & Hk).
+    apply Good_wr; [unfold Good; auto | apply SInv_touch; assumption].
 Qed.
 
 Lemma run_ok : forall fl stp l i n a s,
-  abs_run (p_data_fail_drops P) m a l <> None -> Good s -> R a s ->
+  abs_run (pflags P) m a l <> None -> Good s -> (dropped s = true \/ R a s) ->
   Good (run_steps iface_of P k shard m ci (old_iface r0) fl stp i n l s).
 Proof.
   intros fl stp l. induction l as [|x l IH]; intros i n a s Ha HG HR.
   - destruct n; exact HG.
   - destruct n; [exact HG|]. simpl.
-    simpl in Ha. destruct (abs_step (p_data_fail_drops P) m a x) as [a'|] eqn:Ea; [|congruence].
-    destruct (step_ok (fl i) (stp i) a a' s x HG HR Ea) as (HG' & HR').
-    eapply IH; eauto.
+    simpl in Ha. destruct (abs_step (pflags P) m a x) as [a'|] eqn:Ea; [|congruence].
+    destruct (dropped s) eqn:Edr.
+    + destruct (step_dropped (fl i) (stp i) s x HG Edr) as (HG' & Hd').
+      eapply IH; [exact Ha | exact HG' | left; exact Hd'].
+    + destruct HR as [HR|HR]; [discriminate HR|].
+      destruct (step_ok (fl i) (stp i) a a' s x HG HR Edr Ea) as (HG' & HR').
+      eapply IH; eauto.
 Qed.
 
 End Step.
 
 Lemma run_proc_ok : forall P k shard m ci fl stp n steps r,
-  SInv r -> checked_steps (p_data_fail_drops P) m steps = true ->
+  SInv r -> checked_steps (pflags P) m steps = true ->
   SInv (run_proc iface_of P k shard m ci fl stp n steps r).
 Proof.
   intros P k shard m ci fl stp n steps r Hr Hc. unfold run_proc.
   assert (G : Good k (run_steps iface_of P k shard m ci (old_iface r) fl stp 0 n steps
                         {| v := r; d := r; dropped := false |})).
   { eapply (run_ok P k shard m ci r Hr fl stp steps 0 n a0).
-    - unfold checked_steps in Hc. destruct (abs_run (p_data_fail_drops P) m a0 steps); congruence.
+    - unfold checked_steps in Hc. destruct (abs_run (pflags P) m a0 steps); congruence.
     - unfold Good; simpl. auto.
-    - simpl. auto. }
+    - right. simpl. auto. }
   destruct G as (_ & Hd & _). exact Hd.
 Qed.
 
 Lemma run_procs_ok : forall P k r m procs p rec,
-  SInv rec -> Forall (fun steps => checked_steps (p_data_fail_drops P) m steps = true) procs ->
+  SInv rec -> Forall (fun steps => checked_steps (pflags P) m steps = true) procs ->
   SInv (run_procs iface_of P k r m p procs rec).
 Proof.
   intros P k r m procs. induction procs as [|steps rest IH]; intros p rec Hr Hc; simpl.
@@ -231,7 +296,7 @@ Proof.
 Qed.
 
 Definition round_checked (P : protocol) (r : round) : Prop :=
-  forall m, Forall (fun steps => checked_steps (p_data_fail_drops P) m steps = true) (procs_of P (r_shape r)).
+  forall m, Forall (fun steps => checked_steps (pflags P) m steps = true) (procs_of P (r_touch r) (r_shape r)).
 
 Lemma run_round_ok : forall P k r st,
   (forall m, SInv (st m)) -> round_checked P r -> forall m, SInv (run_round iface_of P k r st m).
